@@ -47,8 +47,8 @@ def field_seeds(ops='all'):
         for place in (0, 1):
             for c in range(0, len(triples), 20):
                 b = bytearray([fi, place, c & 255]) + bytearray(f['bytes'])
-                for k, x, sel in triples[c:c + 20]:
-                    b += bytes([k | 0x80, x, sel, x]) + (0x0123456789abcdef ^ (x * 0x0101010101010101)).to_bytes(8, 'little')
+                for ti, (k, x, sel) in enumerate(triples[c:c + 20]):
+                    b += bytes([k | 0x80 | (0x40 if ('badargs' in ops and ti % 3 == 2) else 0), x, sel, x]) + (0x0123456789abcdef ^ (x * 0x0101010101010101)).to_bytes(8, 'little')
                 out.append(bytes(b))
     return out
 
@@ -125,3 +125,6 @@ def stage(obs, work, binary, label, env, runs, njobs, seed, max_len=512, seeds=(
     obs.stat('evals', execs)
     obs.stat('fuzz_features.' + label, max(feats) if feats else 0)
     return execs
+
+
+BUILDERS = {'fuzz_field': field_target, 'fuzz_vss': vss_target, 'fuzz_can': can_target}
